@@ -39,7 +39,7 @@ ID = "C15"
 LEAN_TARGETS = ["RV.C15.Props", "RV.C15.Audit"]
 AUDIT = "RV/C15/Audit.lean"
 DRIVER = "drv_c15"
-CASES = {"quick": 1400, "thorough": 30000, "search": 6000}
+CASES = {"quick": 1300, "thorough": 30000, "search": 6000}
 RULE = ("random SELECT queries (BGPs of 1-4 patterns over <=4 variables, joins of groups, UNION, OPTIONAL, FILTER, "
         "MINUS, BIND, VALUES, sub-SELECT, GRAPH, property paths, DISTINCT / ORDER BY / GROUP BY+COUNT) over 5-15 "
         "triples in 0-3 named graphs; each case poses the query in two or more ways the property calls equivalent "
@@ -405,6 +405,8 @@ def _gen_case(rng, tier, i, stream):
         els = [g.bgp(1, 3, paths=False)]
         if rng.random() < 0.55:
             inner = g.bgp(1, 2, paths=False)
+            while not all_vars(inner):
+                inner = g.bgp(1, 2, paths=False)
             ivs = sorted(all_vars(inner))
             sq = {"distinct": False, "proj": rng.sample(ivs, rng.randint(1, len(ivs))),
                   "where": {"k": "group", "els": [inner]}, "group": None, "count": None, "order": None}
@@ -436,6 +438,12 @@ def _gen_case(rng, tier, i, stream):
     if stream == "rewrite":
         kinds = ["bgp_shuffle", "join_swap", "union_swap", "rename", "rename_local", "spell", "mix"]
         case["rw"] = [[k, rng.randrange(1 << 20)] for k in rng.sample(kinds, 4)] + [["mix", rng.randrange(1 << 20)]]
+    elif stream == "init":
+        cand = sorted(outer_bgp_vars(q) - subselect_vars(q))
+        if cand:
+            subs, preds, objs = data_terms(data)
+            # VALUES cannot hold a blank node
+            case["init"] = [rng.choice(cand), rng.choice([x for x in subs + preds + objs if x != "_n"] or ["a"])]
     elif stream == "prepared":
         case["data2"] = gen_data(rng, ds)
     elif stream == "store":
@@ -785,6 +793,33 @@ def build(data, kind="mem", ds=False, split=None, order_seed=None):
     return g
 
 
+class _FlakyError(Exception):
+    pass
+
+
+class _Flaky(Graph):
+    """a graph whose `triples` raises at its k-th call (an evaluation that stops with an error midway)"""
+
+    def __init__(self, k):
+        super().__init__()
+        self._left = None
+        self._k = k
+
+    def arm(self):
+        self._left = self._k
+
+    def triples(self, triple):
+        if self._left is not None:
+            self._left -= 1
+            if self._left < 0:
+                raise _FlakyError()
+        return super().triples(triple)
+
+    def query(self, *a, **kw):
+        self.arm()
+        return super().query(*a, **kw)
+
+
 def _exc_name(e):
     n = type(e).__name__
     if n in ("IndexError", "KeyError", "ValueError", "TypeError", "ParseException", "AlreadyBound", "RecursionError"):
@@ -910,26 +945,20 @@ def run_impl(case):
 
     elif stream == "init":
         cand = sorted(outer_bgp_vars(q) - subselect_vars(q))
-        if cand:
-            v = case["init"][0] if case.get("init") else rng.choice(cand)
-            if case.get("init"):
-                t = case["init"][1]
-            else:
-                subs, preds, objs = data_terms(data)
-                t = rng.choice([x for x in subs + preds + objs if x != "_n"] or ["a"])   # VALUES cannot hold a bnode
-            if v in cand:
-                stats["init_applicable"] = 1
-                key = rng.choice([v[1:], Variable(v[1:]), v])
-                a = evaluate(base_g, q, init={key: TERMS[t]})
-                for where in ("before", "after", "end"):
-                    b = evaluate(base_g, init_variant(q, v, t, where))
-                    compared += 1
-                    if a != b:
-                        viol.append("init: initBindings {%s: %s} gives %s but VALUES (%s) placed %s the outermost BGP "
-                                    "gives %s" % (v, t, _short(a), v, where, _short(b)))
-                        break
-                if a[0] == "ok" and a[2]:
-                    stats["init_nonempty"] = 1
+        if case.get("init") and case["init"][0] in cand:
+            v, t = case["init"]
+            stats["init_applicable"] = 1
+            key = rng.choice([v[1:], Variable(v[1:]), v])
+            a = evaluate(base_g, q, init={key: TERMS[t]})
+            for where in ("before", "after", "end"):
+                b = evaluate(base_g, init_variant(q, v, t, where))
+                compared += 1
+                if a != b:
+                    viol.append("init: initBindings {%s: %s} gives %s but VALUES (%s) placed %s the outermost BGP "
+                                "gives %s" % (v, t, _short(a), v, where, _short(b)))
+                    break
+            if a[0] == "ok" and a[2]:
+                stats["init_nonempty"] = 1
         else:
             stats["init_no_candidate"] = 1
 
@@ -986,14 +1015,19 @@ def run_impl(case):
                 except Exception as e:  # noqa: BLE001
                     if ref[0] == "ok" and fresh["B"][0] == "ok":
                         viol.append("prepared: interleaved evaluation raises %s" % _exc_name(e))
-            if sched == 3 and has_kind(q, {"graph"}):
-                # an evaluation that raises midway: GRAPH over a plain (non-dataset) graph
+            if sched == 3:
+                # an evaluation that raises midway: the graph's `triples` fails at its k-th call
                 try:
-                    plain = build(data, "mem", False)
-                    for _row in plain.query(p):
+                    flaky = _Flaky(rng.randint(1, 4))
+                    for t in (gA if not ds else gA.default_context):
+                        flaky.add(t)
+                    _bind_ns(flaky)
+                    for _row in flaky.query(p):
                         pass
-                except Exception:  # noqa: BLE001
+                except _FlakyError:
                     stats["prep_midway_error"] = 1
+                except Exception:  # noqa: BLE001
+                    stats["prep_midway_other_error"] = 1
             init = None
             cand = sorted(outer_bgp_vars(q) - subselect_vars(q))
             if cand and rng.random() < 0.4:
@@ -1359,4 +1393,157 @@ def _tags(result):
     return {v.split(":")[0] for v in result["viol"]}
 
 
-MATCHERS = {}
+def _zero_path_end_vars(node):
+    """variables at an end of a triple pattern whose predicate is `p*` or `p?`"""
+    out = set()
+    if isinstance(node, dict):
+        if node.get("k") == "bgp":
+            for s_, p_, o_ in node["ts"]:
+                if isinstance(p_, list) and p_[0] in ("*", "?"):
+                    out |= {x for x in (s_, o_) if is_var(x)}
+        for v in node.values():
+            out |= _zero_path_end_vars(v)
+    elif isinstance(node, list):
+        for v in node:
+            out |= _zero_path_end_vars(v)
+    return out
+
+
+def _prebindable_nonnode(node, nodes, acc):
+    """variables that another part of the query can bind to a term that is not a node of the data:
+    a VALUES column holding such a term, a predicate position, a GRAPH name, a BIND target"""
+    if isinstance(node, dict):
+        k = node.get("k")
+        if k == "values":
+            for j, v in enumerate(node["vs"]):
+                if any(r[j] is not None and r[j] not in nodes for r in node["rows"]):
+                    acc.add(v)
+        elif k == "bgp":
+            for _s, p_, _o in node["ts"]:
+                if is_var(p_):
+                    acc.add(p_)
+        elif k == "graph" and is_var(node["t"]):
+            acc.add(node["t"])
+        elif k == "bind":
+            acc.add(node["v"])
+        for v in node.values():
+            _prebindable_nonnode(v, nodes, acc)
+    elif isinstance(node, list):
+        for v in node:
+            _prebindable_nonnode(v, nodes, acc)
+
+
+def _m_zero_path_nonnode(case, result):
+    """C15-K1: a `p*` / `p?` pattern one end of which is pre-bound (initBindings, or by the part of the query
+    evaluated first) to a term that is not a node of the graph: top-down evaluation yields the zero-length
+    pair (t, t), bottom-up evaluation (VALUES joined afterwards, the other operand order) does not."""
+    case = materialize(case)
+    ends = _zero_path_end_vars(case["q"])
+    if not ends:
+        return False
+    nodes = {t[0] for t in case["data"]} | {t[2] for t in case["data"]}
+    tags = _tags(result)
+    if case["stream"] == "init":
+        return tags == {"init"} and bool(case.get("init")) and case["init"][0] in ends and case["init"][1] not in nodes
+    if case["stream"] == "rewrite":
+        acc = set()
+        _prebindable_nonnode(case["q"], nodes, acc)
+        return bool(ends & acc) and all(t.startswith("rewrite-") for t in tags)
+    return False
+
+
+def _nested_expr_vars(group, depth=0):
+    """variables mentioned by FILTER / BIND expressions of groups nested inside `group`"""
+    out = set()
+    for e in group["els"]:
+        k = e["k"]
+        if k in ("filter", "bind") and depth > 0:
+            out |= all_vars(e["e"])
+        if k in ("grp", "optional", "minus", "graph"):
+            out |= _nested_expr_vars(e["g"], depth + 1)
+        elif k == "union":
+            for b in e["gs"]:
+                out |= _nested_expr_vars(b, depth + 1)
+    return out
+
+
+def _m_init_nested_expr(case, result):
+    """C15-K2: the initBindings variable is used by a FILTER / BIND expression of a nested group: initBindings
+    are never forgotten, so the expression sees the value; a VALUES row of the outer group is out of its scope."""
+    case = materialize(case)
+    return (case["stream"] == "init" and _tags(result) == {"init"} and bool(case.get("init"))
+            and case["init"][0] in _nested_expr_vars(case["q"]["where"]))
+
+
+def _tp_vars(ts):
+    out = set()
+    for t in ts:
+        out |= {x for x in t if is_var(x)}
+    return out
+
+
+def certain_vars(group):
+    """variables every solution of the group binds (BGPs, joined groups, VALUES columns without UNDEF,
+    sub-select columns, the intersection over UNION branches); OPTIONAL / MINUS / BIND give none"""
+    out = set()
+    for e in group["els"]:
+        k = e["k"]
+        if k == "bgp":
+            out |= _tp_vars(e["ts"])
+        elif k == "grp":
+            out |= certain_vars(e["g"])
+        elif k == "graph":
+            out |= certain_vars(e["g"]) | ({e["t"]} if is_var(e["t"]) else set())
+        elif k == "union":
+            bs = [certain_vars(b) for b in e["gs"]]
+            out |= set.intersection(*bs) if bs else set()
+        elif k == "values":
+            out |= {v for j, v in enumerate(e["vs"]) if all(r[j] is not None for r in e["rows"])}
+        elif k == "sub" and not e["q"]["count"]:
+            out |= set(e["q"]["proj"] or [])
+    return out
+
+
+def _maybe_bound_expr_hazard(group, depth=0):
+    """is there a nested group with a FILTER / BIND expression on a variable the group may bind but need not
+    (OPTIONAL part, one UNION branch, …)?"""
+    for e in group["els"]:
+        k = e["k"]
+        if k in ("filter", "bind") and depth > 0:
+            maybe = visible_vars(group) - certain_vars(group)
+            if all_vars(e["e"]) & maybe:
+                return True
+        subs = [e["g"]] if k in ("grp", "optional", "minus", "graph") else (e["gs"] if k == "union" else [])
+        if k == "sub":
+            subs = [e["q"]["where"]]
+        for g in subs:
+            if _maybe_bound_expr_hazard(g, depth + 1):
+                return True
+        if k == "filter" and isinstance(e["e"], list):
+            for g in _exists_groups(e["e"]):
+                if _maybe_bound_expr_hazard(g, depth + 1):
+                    return True
+    return False
+
+
+def _exists_groups(ex):
+    if isinstance(ex, list):
+        if ex and ex[0] in ("exists", "notexists"):
+            yield ex[1]
+        else:
+            for x in ex[1:]:
+                yield from _exists_groups(x)
+
+
+def _m_maybe_bound_filter(case, result):
+    """C15-K3: a FILTER / BIND of a nested group uses a variable its group binds only optionally and an
+    enclosing join has already bound: pushed down, the expression sees the outer value (forget() keeps every
+    variable the group *may* bind); evaluated bottom-up (other operand order) the variable is unbound."""
+    case = materialize(case)
+    return (case["stream"] == "rewrite" and all(t.startswith("rewrite-") for t in _tags(result))
+            and _maybe_bound_expr_hazard(case["q"]["where"]))
+
+
+MATCHERS = {"maybe_bound_filter": _m_maybe_bound_filter, "zero_path_nonnode": _m_zero_path_nonnode, "init_nested_expr": _m_init_nested_expr,
+            # matchers of repaired defects (their witnesses must pass; kept for documentation)
+            "fixed": lambda case, result: False}
